@@ -19,8 +19,7 @@ import time
 import vcommon
 import arm64_gen as G
 
-MAX_RESTARTS = 12
-MAX_ABORTS_PER_JOB = 2
+MAX_RESTARTS = 60
 
 TYPE_OK = {
     "Register": ("Register",), "NeonRegister": ("FloatRegister",),
@@ -135,14 +134,16 @@ def gen_driver(jobs, groups, enums):
         for d in j["dims"]:
             n *= len(d)
         sk = set(j["skip"])
-        L.append('    let mask = "%s";' % "".join("0" if i in sk else "1" for i in range(n)))
+        bits = "".join("0" if i in sk else "1" for i in range(n))
+        # string literals live in the read-only space, which has an object size limit: 4096 tuples per piece
+        L.append("    let masks = Array[String]::new(%s);" % ", ".join('"%s"' % bits[i:i + 4096] for i in range(0, n, 4096)))
         L.append("    let mut idx = 0;")
         ind = "    "
         for k in j["order"]:
             L.append("%sfor a%d in d%d {" % (ind, k, k))
             ind += "    "
         args = ", ".join(_conv(t, "a%d" % k) for k, t in enumerate(j["dtypes"]))
-        L += [ind + "if mask.get_byte(idx) == 49u8 {",
+        L += [ind + "if masks(idx / 4096).get_byte(idx % 4096) == 49u8 {",
               ind + "    if st.n >= st.start {",
               ind + "        let asm = AssemblerArm64::new();",
               ind + "        asm.%s(%s);" % (j["method"], args),
@@ -170,7 +171,7 @@ def gen_driver(jobs, groups, enums):
 
 
 def _run_group(args):
-    binary, g, total, job_ends = args
+    binary, g, total, job_ends, max_aborts = args
     lines, refused, start, restarts = [], [], 0, 0
     aborts_in_job = {}
     while True:
@@ -198,7 +199,7 @@ def _run_group(args):
         # (every abort costs a run of the whole test binary)
         end = min(e for e in job_ends if e >= len(lines))
         aborts_in_job[end] = aborts_in_job.get(end, 0) + 1
-        if aborts_in_job[end] >= MAX_ABORTS_PER_JOB:
+        if aborts_in_job[end] >= max_aborts:
             lines.extend(["SKIPPED"] * (end - len(lines)))
         start = len(lines)
         restarts += 1
@@ -351,7 +352,7 @@ def run(c, tier, scratch, repo, driver_binary, parsed, joined, llvm, mattr, pret
                     if i + 1 == len(j["block_of"]) or j["block_of"][i + 1] != b:
                         ends.append(n + i + 1)
                 n += len(j["exp"])
-            work.append((binary, g, n, ends))
+            work.append((binary, g, n, ends, 6 if tier == "quick" else 40))
         results = pool.map(_run_group, work)
     t_run = time.time() - t0
 
